@@ -16,7 +16,8 @@ ASSUMPTIONS = [
 
 
 def _pool_multiply(tier):
-    base = [(1, 1, 1, 1), (2, 2, 3, 2), (3, 3, 2, 1), (2, 1, 3, 3), (4, 2, 1, 2), (3, 2, 4, 2), (1, 3, 2, 4), (5, 2, 3, 1)]
+    base = [(1, 1, 1, 1), (2, 2, 3, 2), (3, 3, 2, 1), (2, 1, 3, 3), (4, 2, 1, 2), (3, 2, 4, 2), (1, 3, 2, 4), (5, 2, 3, 1),
+            (2, 20, 1, 2), (2, 3, 18, 1), (18, 2, 2, 1), (2, 2, 2, 20)]  # sizes beyond 16
     if tier == "thorough":
         base += [(2, 4, 3, 2), (3, 1, 1, 3), (4, 3, 4, 1), (5, 4, 2, 2), (2, 5, 6, 1), (3, 6, 5, 2), (1, 2, 5, 2), (4, 1, 4, 3),
                  (2, 3, 3, 2), (3, 4, 4, 1), (5, 1, 2, 4), (2, 2, 5, 3)]
@@ -25,14 +26,15 @@ def _pool_multiply(tier):
 
 def _pool_hadamard(tier):
     # (D, R1, R2, N) with (R1,R2) in {(n,n),(n,1),(1,n)}
-    base = [(1, 1, 1, 1), (2, 3, 3, 2), (3, 2, 1, 1), (2, 1, 3, 3), (4, 2, 2, 2), (3, 4, 1, 2), (1, 1, 2, 4), (5, 1, 2, 1)]
+    base = [(1, 1, 1, 1), (2, 3, 3, 2), (3, 2, 1, 1), (2, 1, 3, 3), (4, 2, 2, 2), (3, 4, 1, 2), (1, 1, 2, 4), (5, 1, 2, 1),
+            (2, 19, 19, 1), (2, 18, 1, 2), (17, 2, 2, 1)]
     if tier == "thorough":
         base += [(2, 4, 4, 2), (3, 1, 4, 3), (4, 3, 1, 1), (5, 3, 3, 2), (2, 6, 1, 1), (3, 1, 5, 2), (1, 4, 4, 2), (4, 1, 3, 3)]
     return base
 
 
 def _pool_product(tier):
-    base = [(1, 1, 0, 1), (2, 3, 0, 2), (3, 2, 0, 1), (4, 4, 0, 2), (2, 1, 0, 3), (5, 2, 0, 1)]
+    base = [(1, 1, 0, 1), (2, 3, 0, 2), (3, 2, 0, 1), (4, 4, 0, 2), (2, 1, 0, 3), (5, 2, 0, 1), (2, 18, 0, 1), (17, 3, 0, 1)]
     if tier == "thorough":
         base += [(3, 5, 0, 2), (1, 6, 0, 3), (4, 3, 0, 1), (2, 4, 0, 4)]
     return base
@@ -56,6 +58,12 @@ def _strategy(op_choices):
                 case["update_full"] = draw(st.booleans())
                 case["f"] = draw(gen.factor_params(fkind, R2, D, kappa))
                 case["elementwise"] = draw(st.booleans())
+                # the measure multiplied with ITSELF (the same object on both sides): u_i(x) u_j(x)
+                if draw(st.sampled_from([False] * 9 + [True])):
+                    case["self_alias"] = True
+                    case["R2"] = R1
+                    case["fkind"] = "measure"
+                    del case["f"]
             # unit consistency on the extreme overall scales: points and the factor are expressed in the measure's unit
             unit = gen.unit_of(mkind, case["m"])
             if unit != 1.0:
@@ -111,11 +119,14 @@ def _run(case):
             check(fails, "product:operand_changed_via_result", got, lnu, su)
         return fails
 
-    Lf, nuf, lbf = libx.factor_params_np(case["fkind"], case["f"])
-    lnf, sf = oracle.ln_factor(Lf, nuf, lbf, x)  # [R2,N]
-    ok, f = lib(fails, "construct_factor", libx.make_factor, case["fkind"], case["f"])
-    if not ok:
-        return fails
+    if case.get("self_alias"):
+        lnf, sf, f = lnu, su, m
+    else:
+        Lf, nuf, lbf = libx.factor_params_np(case["fkind"], case["f"])
+        lnf, sf = oracle.ln_factor(Lf, nuf, lbf, x)  # [R2,N]
+        ok, f = lib(fails, "construct_factor", libx.make_factor, case["fkind"], case["f"])
+        if not ok:
+            return fails
     ok, got = lib(fails, "factor.evaluate_ln", lambda: f.evaluate_ln(J(x)))
     if ok:
         check(fails, "factor.evaluate_ln", got, lnf, sf)
@@ -181,7 +192,7 @@ def _nontrivial(case):
 def _labels(case):
     out = [f"mkind={case['mkind']}", f"cache={case['cache']}", f"op={case['op']}", f"D={case['D']}"]
     if "fkind" in case:
-        out += [f"fkind={case['fkind']}", f"update_full={case['update_full']}"]
+        out += [f"fkind={case['fkind']}", f"update_full={case['update_full']}"] + (["self_alias"] if case.get("self_alias") else [])
         if case["op"] in ("multiply", "mul") and case["R1"] >= 2 and case["R2"] >= 2 and case["R1"] != case["R2"]:
             out.append("layout_sensitive")
         if case["op"] == "hadamard":
